@@ -1,19 +1,20 @@
 #!/bin/bash
-# usage: matrix.sh <out.tsv> <patch.diff>...  — for every patch: apply to /repo, run all 20 quick checks, revert.
-# one line per patch: name <TAB> checks that exited 1 <TAB> checks that exited 2 <TAB> seconds
+# usage: matrix.sh <out.tsv> <patch.diff>...  — for every patch: apply to $MX_REPO, run all 20 quick checks, revert.
+# one line per patch: name <TAB> checks that exited 1 <TAB> checks that exited other than 0/1 <TAB> seconds
 OUT="$1"; shift
-mkdir -p /tmp/scratch/vout
+REPO="${MX_REPO:-/repo}"; VERIF="${MX_VERIF:-/verif}"
+mkdir -p /tmp/scratch/vout-mx
 for P in "$@"; do
   name=$(basename "$(dirname "$P")")/$(basename "$P" .diff)
-  cd /repo || exit 2
-  if [ -n "$(git status --porcelain --untracked-files=no)" ]; then echo "matrix: /repo dirty, stopping"; exit 2; fi
+  cd "$REPO" || exit 2
+  if [ -n "$(git status --porcelain --untracked-files=no)" ]; then echo "matrix: $REPO dirty, stopping"; exit 2; fi
   if ! git apply "$P"; then printf "%s\tPATCH-DOES-NOT-APPLY\t\t0\n" "$name" >> "$OUT"; continue; fi
   t0=$(date +%s); v=""; inc=""
   for i in $(seq -w 1 20); do
-    (cd /verif && VERIF_OUT=/tmp/scratch/vout VERIF_TIME_BUDGET=300 timeout 1200 ./check C$i quick > /tmp/scratch/vout/last-C$i.log 2>&1); rc=$?
+    (cd "$VERIF" && VERIF_DIR="$VERIF" VERIF_OUT=/tmp/scratch/vout-mx VERIF_TIME_BUDGET=300 timeout 1200 ./check C$i quick > /tmp/scratch/vout-mx/last-C$i.log 2>&1); rc=$?
     [ $rc = 1 ] && v="$v C$i"
     [ $rc != 0 ] && [ $rc != 1 ] && inc="$inc C$i($rc)"
   done
-  git -C /repo checkout -- .
+  git -C "$REPO" checkout -- .
   printf "%s\t%s\t%s\t%s\n" "$name" "$v" "$inc" "$(( $(date +%s) - t0 ))" >> "$OUT"
 done
